@@ -611,6 +611,27 @@ def run(ctx):
     for i in (bad or [])[:10]:
         ctx.notes.append(f'model/implementation disagreement on {descr[i]!r}')
 
+    # object churn: the same matches on freshly parsed, short-lived category objects (what a parser does all day) must read the same
+    # bindings as on the long-lived objects above - a binding is a function of the category VALUES, not of object identity or history
+    from depccg.cat import Category
+    pool = [c for c in cases if c['obs']['flag'] == ('ok', True) and gen.wf_py(c['x']) and gen.wf_py(c['y'])]
+    n_churn = 0
+    for rep in range(2 if ctx.quick else 6):
+        for c in rng.sample(pool, min(len(pool), 1200 if ctx.quick else 6000)):
+            x2, y2 = Category.parse(str(c['x'])), Category.parse(str(c['y']))
+            if x2 != c['x'] or y2 != c['y']:
+                continue
+            p2 = c06_obs.plain(c06_obs.observe(c['px'], c['py'], x2, y2, c['names']))
+            del x2, y2
+            n_churn += 1
+            if p2 != c06_obs.plain(c['obs']):
+                ctx.fail('binding_depends_on_history', f"Unification({c['px']!r}, {c['py']!r})({str(c['x'])!r}, {str(c['y'])!r}) on freshly built, short-lived category objects "
+                         f"(after {n_churn} earlier matches in this process) answers {p2['flag']} with bindings {p2['reads']}; on the first, long-lived objects it answered "
+                         f"{c06_obs.plain(c['obs'])['flag']} with {c06_obs.plain(c['obs'])['reads']}",
+                         {'px': c['px'], 'py': c['py'], 'x': str(c['x']), 'y': str(c['y']), 'names': c['names'], 'kind': 'churn'})
+                break
+    ctx.stats['churn_matches'] = n_churn
+
     # hash seeds: all value-conflict cases plus a random sample
     conf = [c for c in cases if c['kind'] == 'xconf']
     rest = [c for c in cases if c['kind'] != 'xconf' and c['obs']['flag'] == ('ok', True)]
